@@ -8,6 +8,7 @@ import MW.Props.C15
 #print axioms MW.Props.C15.rewards_posts_post_rates
 #print axioms MW.Props.C15.resume_posts_post_rates
 #print axioms MW.Props.C15.withdraw_posts_post_rates
+#print axioms MW.Props.C15.every_total_change_posts
 #print axioms MW.Props.C15.state_query_rate
 #print axioms MW.Props.C15.no_oracle_posts_nothing
 #print axioms MW.Props.C15.resume_succeeds_without_oracle
